@@ -55,6 +55,13 @@ def assemble(stmts, term):
     return dict(cls="OpA", classlevel=False, extractor={"kind": "none"}, body=c)
 
 
+def with_extractor(rng, op):
+    """a metadata extractor that itself goes through an intercepted output: nothing it sends belongs to the recording"""
+    if rng.random() < 0.25:
+        op = dict(op, extractor={"kind": "calls_out", "n": rng.randrange(1, 3), "d": [["tenant", pv.s("t1")]]})
+    return op
+
+
 def rand_program(rng):
     naliases = rng.choice([1, 2, 3])
     aliases = rng.sample(ALIASES, naliases)
@@ -120,6 +127,7 @@ def generate(rng, tier):
         else:
             s2, t2, kind = edit(rng, stmts, term, kinds)
             Pp = assemble(s2, t2)
+        P = with_extractor(rng, P)
         runs = [dict(kind="record", enabled=True, prm=PRM, op=P, save_fails=False)]
         if rng.random() < 0.3:
             # first a replay of code that makes an ADDED output call whose result must not be invented: it aborts with
